@@ -31,7 +31,9 @@ def values_of(lists, d):
 
 
 def expected_names(case, d):
-    return list(d.keys()) if d is not None else list(case["items"])
+    if d is None:
+        return list(case["items"])
+    return list(getattr(d, "names_list", None) or d.keys())
 
 
 def judge_partition(case, obs, allow_fewer=False):
